@@ -149,6 +149,29 @@ Qed.
 Lemma exs_hist_le3 : forall r, (r < 2)%nat -> (length (fhist (A := AFlx) 2 1 exs_al exs_index 2 r) <= 3)%nat.
 Proof. intros [|[|r]] Hr; try lia; cbn; lia. Qed.
 
+
+(* [[2,1],[1,3]] x = [1,2] as a band with m1 = m2 = 1: no exchange *)
+Definition exn_B : banded AFlx := @mkB AFlx 2 1 1 (@mkM AFlx [0; 2; 1; 1; 3; 0] 2 3).
+
+Lemma exn_decompose :
+  decompose_gen false exn_B (compact exn_B) (@mat_new AFlx 2 1 0) (repeat 0%nat 2) = Ok (exn_au, exn_al, [1%nat; 2%nat], 1).
+Proof. unfold decompose_gen, exn_B, exn_au, exn_al, exn_p1. repeat exs_step. reflexivity. Qed.
+
+Lemma exn_solve : exists x, band_solve exn_B exs_b = Ok x.
+Proof.
+  eexists. unfold band_solve, band_solve_gen.
+  change (negb (bn exn_B =? length exs_b)%nat) with false. cbv iota.
+  change (decompose_gen false exn_B (compact exn_B) (mat_new (bn exn_B) (bm1 exn_B) zero) (repeat 0%nat (bn exn_B)))
+    with (decompose_gen false exn_B (compact exn_B) (@mat_new AFlx 2 1 0) (repeat 0%nat 2)).
+  rewrite exn_decompose. reflexivity.
+Qed.
+
+Lemma exn_wf : wfB exn_B.
+Proof. unfold wfB, wfM, exn_B. cbn. repeat split. Qed.
+
+Lemma exn_size9 : INR (3 * 3) * ux < 1.
+Proof. cbn [Nat.mul Nat.add INR]. pose proof ux_small. lra. Qed.
+
 (* ---------------------------------------------------------------- exact rationals: how long a history can get *)
 Local Close Scope R_scope.
 Local Open Scope nat_scope.
